@@ -86,6 +86,12 @@ def structures():
         E("valve", j=1, el=3, et="pi"), E("valve", j=3, el=0, et="pi"), E("sink", j=3), E("sink", j=2),
         E("press_control", f=1, to=3, cj=3)]}
     S.append(s)
+    # junction valves and junction-pipe valves side by side, the valve labels are not the row positions
+    # (only the junction valves' element column holds junction labels)
+    S.append({"name": "g_valves_mixed", "fluid": "gas", "nj": 5, "elems": [
+        E("ext_grid", j=0), E("pipe", f=0, to=1, index=0), E("pipe", f=1, to=2, index=1), E("pipe", f=3, to=4, index=2),
+        E("valve", j=2, el=3, et="ju", index=1), E("valve", j=1, el=1, et="pi", index=0),
+        E("valve", j=2, el=4, et="ju", index=5, zeta=0.7), E("sink", j=4), E("sink", j=2)]})
     return S
 
 
